@@ -80,6 +80,19 @@ CLAIMS = {
        "against the definitions and replayed through the loop model.",
   note=TB + "kernel doubles; with store_sample_history=False only the length invariant is stated; mcmc_acceptance's extra entry after the final enlargement is a known finding.",
   technique="Lean 4 proof (invariant by induction over operations) + loop replay correspondence + recomputation oracle"),
+ "C10": dict(
+  text="Theorems (L, pi, q abstract deterministic functions): every sample set produced by the evaluation idiom (mutate's re-evaluation, kernel target evaluation) is coherent; selection "
+       "(resampling, slicing, masking, enlargement) and concatenation preserve coherence; the rejection loop of draw_initial_samples returns exactly n rows, all with finite prior, each still paired with "
+       "its OWN proposal value, using the minimal number of batches (drawInitialRows_spec); coherence is an invariant of the SMC loop model covering every stored population, every checkpoint and resumed runs "
+       "(smc_run_coherent_real). Real runs of all five sampler classes recompute L, pi, q on every row of every returned/recorded/checkpointed set; the initial population is compared with the model on the recorded batches.",
+  note=TB + "Hypothesis (C03): the proposal returns draws with their own density. Kernel doubles; user functions deterministic. In the loop model the kernel output is an input whose coherence is discharged by reevaluate_coherent.",
+  technique="Lean 4 proof (invariant over the evaluation idiom and the loop) + recomputation oracle on whole runs + model of the rejection loop"),
+ "C17": dict(
+  text="Theorems: for every sequence of evaluation requests a sampler makes, every likelihood event carries attached = pi of exactly the points it is called on, every prior+likelihood request is the pair "
+       "[prior xs, like xs], and the counter equals the total number of points over all likelihood events; the initial draw emits only prior events for the batches used and exactly one likelihood event on the kept rows. "
+       "Real runs of every sampler class (incl. resumed runs and Aspire.sample_posterior) are observed through instrumented user callables; the observed stream must be in the model's language and the model's counter must equal the reported one.",
+  note=TB + "Which requests each sampler makes is observed, not derived: the theorem quantifies over all request lists, the harness checks that the observed stream is one. Kernel doubles call the target like the real kernels.",
+  technique="Lean 4 proof (event-trace invariant) + instrumented callables on whole runs + counter correspondence"),
 }
 NOT_YET = "check not built yet (work in progress; see DESIGN.md section 10)"
 
